@@ -1,3 +1,4 @@
+import LokyModel.Lemmas.ExecTerm
 import LokyModel.Props.C02
 import LokyModel.Props.C01
 import LokyModel.Lemmas.ExecTokenU
@@ -127,5 +128,26 @@ theorem C03_pending_not_dispatched (cfg : Cfg) (s : St) (h : Reachable cfg s) (i
 /-- non-vacuity: the schedule of `Props/C01` (create, submit, shutdown; the task runs and its value is delivered)
     reaches a state where the body of work id 0 has been started — exactly once -/
 example : (run (init cfgD7) schedD7).map (fun s => (s.execW, futOf s 0)) = some ([0], .value) := by decide +kernel
+
+
+/-- **A future resolves at most once**: once it has a result, an exception or is cancelled, no later step of any
+    actor changes it (all schedules, time-outs and crashes). -/
+theorem C03_resolves_once (cfg : Cfg) (s s' : St) (a : Actor) (v : Variant) (h : Reachable cfg s)
+    (hs : step s a v = some s') (i : Wid) (hd : (futOf s i).done = true) : futOf s' i = futOf s i :=
+  (fs_step (futInv_reachable h) (tokInv_reachable h) (lenInv_reachable h) (shutInv_reachable h) hs).2 i hd
+
+/-- **A value comes from exactly one execution of the future's own work id.** -/
+theorem C03_value_from_one_execution (cfg : Cfg) (s : St) (h : Reachable cfg s) (i : Wid)
+    (hv : futOf s i = .value) : s.execW.count i = 1 := by
+  have h1 := (futInv_reachable h).executed i (Or.inl hv)
+  have h2 := (tokInv_reachable h).once i
+  omega
+
+/-- Only futures the manager still tracks are dispatched: an id in the work-id queue belongs to a pending work
+    item whose future is PENDING or CANCELLED (until the manager enters its final phase, after which nothing is
+    dispatched any more). -/
+theorem C03_queue_ids_are_tracked (cfg : Cfg) (s : St) (h : Reachable cfg s) (hl : mTerm s.mpc = false)
+    (i : Wid) (hi : i ∈ s.workIds) : i ∈ s.pending ∧ (futOf s i = .pending ∨ futOf s i = .cancelled) :=
+  (futInv_reachable h).wk hl i hi
 
 end LokyModel.Exec
